@@ -477,7 +477,13 @@ func runC13Failure(nch int, kind string, victim, before, after, repeat int) erro
 				return fmt.Errorf("valid write refused: %v", err)
 			}
 		case "raw-outside-dialect":
-			if err := n.WriteMessageAll(&message.MessageRaw{ID: 999999, Payload: []byte{1, 2, 3}}); err != nil {
+			// ids the dialect does not have; every other one shares its low byte with DEBUG (254), the message the valid
+			// items use: what was refused says nothing about other ids
+			unknownID := uint32(999999)
+			if r%2 == 0 {
+				unknownID = 0x0100FE
+			}
+			if err := n.WriteMessageAll(&message.MessageRaw{ID: unknownID, Payload: []byte{1, 2, 3}}); err != nil {
 				return nil // refused in the caller: nothing reached the channels, property not engaged
 			}
 			for i := range pipes {
